@@ -12,6 +12,7 @@ import (
 	"context"
 	"encoding/binary"
 	"errors"
+	"fmt"
 	"io"
 	"net"
 	"runtime"
@@ -58,15 +59,15 @@ type hresult struct {
 }
 
 type world struct {
-	mu     sync.Mutex
-	items  []item
-	invs   []*inv         // in invocation order
-	byRid  map[int]*inv   // rid -> invocation
-	sent   map[string]int // request payload -> rid
-	filler map[string]p9p.Message // request payload -> the result an auto-completing handler returns at once
-	stops  int
-	ret    bool
-	retErr error
+	mu        sync.Mutex
+	items     []item
+	invs      []*inv                 // in invocation order
+	byRid     map[int]*inv           // rid -> invocation
+	sent      map[string]int         // request payload -> rid
+	filler    map[string]p9p.Message // request payload -> the result an auto-completing handler returns at once
+	stops     int
+	ret       bool
+	retErr    error
 	anomalies []string
 
 	cn     *sconn
@@ -156,13 +157,14 @@ func (w *world) stop(err error) error {
 // ---------------------------------------------------------------- conn
 
 type sconn struct {
-	w     *world
-	mu    sync.Mutex
-	rcond *sync.Cond
-	wcond *sync.Cond
-	in    []byte
-	rerr  error
-	gated bool
+	w          *world
+	mu         sync.Mutex
+	rcond      *sync.Cond
+	wcond      *sync.Cond
+	in         []byte
+	rerr       error
+	rtransient []error // errors each returned by one Read (when no bytes are waiting)
+	gated      bool
 	// one write in progress at most (WriteFcall is not called concurrently)
 	wpending  bool
 	wreleased bool
@@ -181,8 +183,14 @@ func newConn(w *world) *sconn {
 func (c *sconn) Read(p []byte) (int, error) {
 	c.mu.Lock()
 	defer c.mu.Unlock()
-	for len(c.in) == 0 && c.rerr == nil {
+	for len(c.in) == 0 && c.rerr == nil && len(c.rtransient) == 0 {
 		c.rcond.Wait()
+	}
+	if len(c.in) == 0 && len(c.rtransient) > 0 {
+		// an error for this Read only; the conn carries on delivering afterwards
+		err := c.rtransient[0]
+		c.rtransient = c.rtransient[1:]
+		return 0, err
 	}
 	if len(c.in) > 0 {
 		n := copy(p, c.in)
@@ -195,6 +203,15 @@ func (c *sconn) Read(p []byte) (int, error) {
 func (c *sconn) feed(b []byte) {
 	c.mu.Lock()
 	c.in = append(c.in, b...)
+	c.mu.Unlock()
+	c.rcond.Broadcast()
+}
+
+func (c *sconn) failReadOnce(err error, times int) {
+	c.mu.Lock()
+	for i := 0; i < times; i++ {
+		c.rtransient = append(c.rtransient, err)
+	}
 	c.mu.Unlock()
 	c.rcond.Broadcast()
 }
@@ -290,6 +307,15 @@ type timeoutErr struct{}
 func (timeoutErr) Error() string   { return "i/o timeout" }
 func (timeoutErr) Timeout() bool   { return true }
 func (timeoutErr) Temporary() bool { return true }
+
+// netErr is a net.Error with the given answers
+type netErr struct{ timeout, temporary bool }
+
+func (e netErr) Error() string {
+	return fmt.Sprintf("net error (timeout=%v temporary=%v)", e.timeout, e.temporary)
+}
+func (e netErr) Timeout() bool   { return e.timeout }
+func (e netErr) Temporary() bool { return e.temporary }
 
 var errReset = errors.New("connection reset by peer")
 var errPipe = errors.New("broken pipe")
